@@ -1,13 +1,169 @@
 import ScryerModel.Proofs.Luv
 /-!
 # C09 — Dynamic predicates follow the logical update view
+
+Model (`Model/Luv.lean`): a dynamic predicate is a chain of entries (code address, birth, death,
+clause) plus the global clock; `DB.apply` is assertz / asserta / `'$retract_clause'` / abolish / a
+tick caused by another predicate; `view cc chain` is the list of clauses a call that captured the
+generation `cc` must see; `DB.snapshot` is what a call starting now sees.  `callChain` /
+`callLine` mirror the dispatch protocol of `dispatch.rs` (first entry, then one retry per
+*interlude*; an interlude is an arbitrary list of updates together with an arbitrary value left in
+the `cc` register by other calls).  `Variant.fixed` is the repaired protocol (notes/findings/C09-1,
+C09-2), `Variant.pinned` the one of the pinned tree.  `WF` is the stamps invariant.  No bound on the
+number of clauses, updates or interludes anywhere.
+
+Only statements live here; lemmas are in `Proofs/Luv.lean`.
 -/
 namespace Scryer.Luv
 
-/-- placeholder while the proofs are being written: a clause stamped dead at `d` is invisible to
-every later generation. -/
-theorem C09_dead_invisible {α : Type} (e : Entry α) (d cc : Nat) (h : e.death = some d) (hc : d < cc) :
-    e.vis cc = false := by
-  simp [Entry.vis, h]; omega
+variable {α : Type}
+
+/-! ## (1) frozen view -/
+
+/-- **Frozen view, as a property of the stamps.** What a generation `cc` sees of the predicate is
+unaffected by ANY sequence of assertz / asserta / retract / abolish / foreign ticks performed after
+`cc` was captured. -/
+theorem C09_updates_invisible_to_older_generation (db : DB α) (us : List (Upd α)) (cc : Nat)
+    (hc : cc ≤ db.clock) : view cc (db.applyAll us).chain = view cc db.chain :=
+  view_applyAll db us cc hc
+
+/-- **Frozen view, chain walk** (`DynamicElse` / `DynamicInternalElse` arms, repaired retry).
+A call backtracked into after arbitrary interludes — updates of the predicate AND other dynamic
+calls overwriting the `cc` register — delivers exactly the clauses of its own snapshot, in order
+(one per retry), and the machine never re-enters the dispatch instruction in a failed state. -/
+theorem C09_frozen_view_chain (db : DB α) (hwf : WF db) (ils : List (Interlude α)) :
+    (callChain Variant.fixed db ils).1.map keyOf = db.snapshot.take (ils.length + 1) ∧
+    (callChain Variant.fixed db ils).2 = false :=
+  callChain_fixed Variant.fixed rfl db hwf ils
+
+/-- **Frozen view, index line walk** (`DynamicIndexedChoice` arm, repaired): a call through the
+line of the clauses filed under its key delivers the clauses of its snapshot that are in the line,
+whatever is asserted (at the front or the back of the line), retracted or abolished meanwhile. -/
+theorem C09_frozen_view_line (sel : α → Bool) (db : DB α) (ils : List (Interlude α)) :
+    (callLine Variant.fixed sel db ils).1.map keyOf
+        = (db.snapshot.filter (fun p => sel p.2)).take (ils.length + 1) ∧
+    (callLine Variant.fixed sel db ils).2 = false :=
+  callLine_fixed Variant.fixed rfl rfl sel db ils
+
+/-- The only thing the frozen view of the chain walk needs is the repair of the `cc` register
+(C09-1); it does not depend on the line index. -/
+theorem C09_frozen_view_chain_needs_only_cc (v : Variant) (hv : v.cc = true) (db : DB α)
+    (hwf : WF db) (ils : List (Interlude α)) :
+    (callChain v db ils).1.map keyOf = db.snapshot.take (ils.length + 1) :=
+  (callChain_fixed v hv db hwf ils).1
+
+/-! ### the pinned protocol violates it (witnesses of C09-1 and C09-2) -/
+
+/-- three clauses consulted together -/
+def db3 : DB Nat := ⟨[⟨0, 0, none, 10⟩, ⟨1, 0, none, 11⟩, ⟨2, 0, none, 12⟩], 1, 3⟩
+
+/-- **witness of C09-1** (stale `cc` on retry): while the call is at its first clause, the third
+one is retracted and a fourth asserted, and another dynamic call leaves generation 3 in `cc`. The
+pinned retry delivers the NEW clause 13 instead of the retracted-later clause 12. -/
+theorem C09_pinned_stale_cc_wrong_clause :
+    (callChain Variant.pinned db3 [⟨[.retractId 2, .assertz 13], 3⟩, ⟨[], 3⟩]).1.map (·.cl)
+      = [10, 11, 13] ∧
+    (callChain Variant.fixed db3 [⟨[.retractId 2, .assertz 13], 3⟩, ⟨[], 3⟩]).1.map (·.cl)
+      = [10, 11, 12] := by decide
+
+/-- **witness of C09-1**, second symptom: without the assertz the pinned retry finds no living
+clause, raises `fail` with the choice point still in place and re-enters the instruction forever. -/
+theorem C09_pinned_stale_cc_stuck :
+    (callChain Variant.pinned db3 [⟨[.retractId 2], 2⟩, ⟨[], 2⟩]).2 = true ∧
+    (callChain Variant.fixed db3 [⟨[.retractId 2], 2⟩, ⟨[], 2⟩]).2 = false := by decide
+
+/-- **witness of C09-2** (absolute index into a line that grows at the front): an asserta into the
+line being walked makes the pinned walk deliver the same clause again. -/
+theorem C09_pinned_line_index_repeats :
+    (callLine ⟨true, false⟩ (fun _ => true) db3 [⟨[.asserta 14], 1⟩, ⟨[], 1⟩]).1.map (·.cl)
+      = [10, 10, 11] ∧
+    (callLine Variant.fixed (fun _ => true) db3 [⟨[.asserta 14], 1⟩, ⟨[], 1⟩]).1.map (·.cl)
+      = [10, 11, 12] := by decide
+
+/-! ## (4) the stamps invariant -/
+
+/-- **Stamps invariant**: births before deaths, every stamp below the clock, code addresses unique
+— holds initially, is preserved by every operation, and the clock never runs backwards. -/
+theorem C09_stamps_invariant (db : DB α) (h : WF db) (us : List (Upd α)) :
+    WF (DB.empty : DB α) ∧ WF (db.applyAll us) ∧ db.clock ≤ (db.applyAll us).clock :=
+  ⟨WF.empty, h.applyAll us, clock_le_applyAll db us⟩
+
+/-- under the invariant the stamp test at the current clock and the clause store of `clause/2` /
+`retract/1` (clauses not yet retracted) agree: a later call and `clause/2` see the same database -/
+theorem C09_snapshot_is_clause_store (db : DB α) (h : WF db) : db.snapshot = db.liveList :=
+  snapshot_eq_liveList h
+
+/-! ## (5), (2) refinement: the stamped database is a plain list of clauses -/
+
+/-- **Refinement.** After any update sequence, what a new call (or `clause/2`) sees is the
+stamp-free specification applied to what was seen before: assertz appends, asserta prepends,
+retract erases that clause, abolish empties — relative order otherwise preserved. -/
+theorem C09_refinement (db : DB α) (h : WF db) (us : List (Upd α)) :
+    (db.applyAll us).snapshot = (db.spec.applyAll us).cls := by
+  have := spec_applyAll h us
+  exact congrArg Spec.cls this
+
+/-- **assertz puts the clause at the back** of every later snapshot -/
+theorem C09_assertz_back (db : DB α) (h : WF db) (c : α) :
+    (db.apply (.assertz c)).snapshot = db.snapshot ++ [(db.next, c)] :=
+  congrArg Spec.cls (spec_apply h (.assertz c))
+
+/-- **asserta puts the clause at the front** -/
+theorem C09_asserta_front (db : DB α) (h : WF db) (c : α) :
+    (db.apply (.asserta c)).snapshot = (db.next, c) :: db.snapshot :=
+  congrArg Spec.cls (spec_apply h (.asserta c))
+
+/-! ## (3) retract -/
+
+/-- **retract/1 removes exactly the first visible matching clause**: if the snapshot at the time
+of the call is `pre ++ p :: post` with no match in `pre`, the solution is `p` and every later
+snapshot (call or `clause/2`) is `pre ++ post`. -/
+theorem C09_retract_removes_first_match (db : DB α) (h : WF db) (m : α → Bool)
+    (pre post : List (Nat × α)) (p : Nat × α) (hs : db.snapshot = pre ++ p :: post)
+    (hpre : ∀ q ∈ pre, m q.2 = false) (hp : m p.2 = true) :
+    (db.retractFirst m).1 = some p ∧ (db.retractFirst m).2.snapshot = pre ++ post := by
+  have hl : db.retractList m = p :: post.filter (fun q => m q.2) := by
+    unfold DB.retractList
+    rw [← snapshot_eq_liveList h, hs, List.filter_append, List.filter_cons]
+    have : pre.filter (fun q => m q.2) = [] := by
+      apply List.filter_eq_nil_iff.mpr
+      intro q hq; simp [hpre q hq]
+    simp [this, hp]
+  unfold DB.retractFirst
+  rw [hl]
+  refine ⟨rfl, ?_⟩
+  have := congrArg Spec.cls (spec_apply h (.retractId p.1))
+  simp only [Spec.apply, DB.spec] at this
+  rw [this, hs]
+  apply filter_ne_of_nodup
+  rw [← hs]
+  exact snapshot_ids_nodup h
+
+/-- **retract/1 is re-entrant within its own snapshot**: backtracked into after arbitrary
+interludes it yields the matching clauses of the snapshot taken when it was called, in order. -/
+theorem C09_retract_reentrant (db : DB α) (h : WF db) (m : α → Bool) (ils : List (Interlude α)) :
+    (db.retract m ils).1 = (db.snapshot.filter (fun p => m p.2)).take (ils.length + 1) := by
+  unfold DB.retract
+  rw [retractRun_solutions, DB.retractList, snapshot_eq_liveList h]
+
+/-! ## non-vacuity -/
+
+example : WF db3 := by
+  refine ⟨by decide, ?_, by decide, by decide⟩
+  intro e he d hd
+  simp [db3] at he
+  rcases he with rfl | rfl | rfl <;> simp at hd
+
+/-- the hypotheses of `C09_retract_removes_first_match` are satisfiable and the conclusion is not
+trivial: the second clause is removed, the first stays -/
+example : (db3.retractFirst (fun c => c == 11)).1 = some (1, 11) ∧
+    (db3.retractFirst (fun c => c == 11)).2.snapshot = [(0, 10), (2, 12)] := by decide
+
+/-- a choice point is really created and retried (three deliveries, two retries) -/
+example : (callChain Variant.fixed db3 [⟨[.abolish], 7⟩, ⟨[.asserta 5], 9⟩]).1.map (·.cl)
+    = [10, 11, 12] := by decide
+
+/-- after the same updates a new call sees the modified database -/
+example : (db3.applyAll [.abolish, .asserta 5, .assertz 6]).snapshot = [(3, 5), (4, 6)] := by decide
 
 end Scryer.Luv
